@@ -17,7 +17,9 @@ import (
 	"github.com/ipld/go-ipld-prime/datamodel"
 	"github.com/libp2p/go-libp2p/core/crypto"
 
+	"github.com/ucan-wg/go-ucan/did"
 	"github.com/ucan-wg/go-ucan/pkg/args"
+	"github.com/ucan-wg/go-ucan/pkg/command"
 	"github.com/ucan-wg/go-ucan/pkg/container"
 	"github.com/ucan-wg/go-ucan/token"
 	"github.com/ucan-wg/go-ucan/token/delegation"
@@ -479,6 +481,58 @@ func schedOp(w *schedWorld, name string) func() string {
 		}
 		ok, _ := dlg.Policy().Match(n)
 		return func() string { return fmt.Sprint(ok) }
+	case "Derived":
+		// values derived from the token's fields: DID text and key, command segments and
+		// coverage, policy as IPLD and its partial match, generic store lookups
+		var iss did.DID
+		if isInv {
+			iss = inv.Issuer()
+		} else {
+			iss = dlg.Issuer()
+		}
+		is := iss.String()
+		pub, perr := iss.PubKey()
+		var pubRaw []byte
+		if perr == nil {
+			pubRaw, _ = pub.Raw()
+		}
+		var cmdS string
+		var segs []string
+		var cov, covTop bool
+		var aud, sub string
+		var polNode datamodel.Node
+		var polErr error
+		var pm bool
+		if isInv {
+			c := inv.Command()
+			cmdS, segs, cov, covTop = c.String(), c.Segments(), c.Covers(c.Join("x")), command.Top().Covers(c)
+			aud, sub = inv.Audience().String(), inv.Subject().String()
+		} else {
+			c := dlg.Command()
+			cmdS, segs, cov, covTop = c.String(), c.Segments(), c.Covers(w.inv.Command()), command.Top().Covers(c)
+			aud, sub = dlg.Audience().String(), dlg.Subject().String()
+			polNode, polErr = dlg.Policy().ToIPLD()
+			if n, err := w.inv.Arguments().WriteableClone().ToIPLD(); err == nil {
+				pm, _ = dlg.Policy().PartialMatch(n)
+			}
+		}
+		var gen []rawRec
+		for _, c := range w.cids[:len(w.dlgs)] {
+			if t, err := w.store.GetToken(c); err == nil {
+				gen = append(gen, rawOf(t))
+			}
+		}
+		return func() string {
+			out := fmt.Sprintf("%s %x %s %s %s %v %v %v %s %v", is, pubRaw, errStr(perr), aud, sub, segs, cov, covTop, cmdS, pm)
+			if polNode != nil {
+				out += " " + nodeHex(polNode)
+			}
+			out += " " + errStr(polErr)
+			for _, g := range gen {
+				out += ";" + g.render().Content()
+			}
+			return out
+		}
 	case "StoreGet":
 		var raws []rawRec
 		var errs []error
@@ -839,10 +893,10 @@ func genSched(r *Rand, g GenCfg) Plan {
 	for i := 0; i < nl; i++ {
 		targets = append(targets, fmt.Sprintf("dlg%d", i))
 	}
-	invOps := []string{"ExecutionAllowed", "ExecutionAllowed", "ExecutionAllowed", "ExecutionAllowed", "ExecutionAllowed", "ExecutionAllowedHook", "ToSealed", "ToSealedWriter", "ToDagCbor", "ToDagJson", "Encode", "Accessors", "IsValid",
+	invOps := []string{"ExecutionAllowed", "ExecutionAllowed", "ExecutionAllowed", "ExecutionAllowed", "ExecutionAllowed", "ExecutionAllowedHook", "ToSealed", "ToSealedWriter", "ToDagCbor", "ToDagJson", "Encode", "Accessors", "Derived", "IsValid",
 		"ArgsIter", "ArgsString", "ArgsToIPLD", "ArgsGetNode", "ArgsEquals", "ArgsClone", "ArgsCloneMutate", "MetaCloneMutate", "ExecutionAllowedHookAdd", "MetaIter", "MetaString", "MetaGet", "MetaGetEncrypted", "MetaEquals", "MetaClone",
 		"StoreGet", "StoreIter", "ContainerWrite"}
-	dlgOps := []string{"ToSealed", "ToSealedWriter", "ToDagJson", "Encode", "Accessors", "IsValid", "MetaIter", "MetaString", "MetaGet", "MetaEquals", "MetaClone", "MetaCloneMutate", "PolicyString", "PolicyMatch", "StoreGet"}
+	dlgOps := []string{"ToSealed", "ToSealedWriter", "ToDagJson", "Encode", "Accessors", "Derived", "Derived", "IsValid", "MetaIter", "MetaString", "MetaGet", "MetaEquals", "MetaClone", "MetaCloneMutate", "PolicyString", "PolicyMatch", "StoreGet"}
 	k := r.Range(2, 4)
 	p.Ops = make([][]string, k)
 	for g := 0; g < k; g++ {
